@@ -100,3 +100,31 @@ def ser_ops(rng, n):
         auth = b'\0' * 16 if (code == 4 and rng.random() < 0.9) else rbytes(rng, 16)
         ops.append('op ser %d %d %s %s %s' % (code, rng.randrange(256), hx(auth), hx(secret_of(rng)), toks))
     return ops
+
+
+def interleaved_parse_ops(rng, n):
+    """C05/C04: the verdict on a packet whose Message-Authenticator (or authenticator) is forged must not depend on another
+    reader thread verifying an authentic packet at the same moment: after the k-th mutex unlock of the first parse a
+    complete second parse takes place (k = 1..4 covers the authenticator and the Message-Authenticator checks)"""
+    ops = []
+    for i in range(n):
+        sec, sec2 = secret_of(rng), secret_of(rng)
+        reply = (i % 2 == 1)
+        code = rng.choice([2, 3, 11]) if reply else 1
+        rqa = rbytes(rng, 16) if reply else None
+        attrs = [(1, b'mallory@victim.org'), (80, None)]
+        good = radius.build(code, rng.randrange(256), rbytes(rng, 16), attrs, sec, reqauth=rqa)
+        kind = i % 3
+        if kind == 0:
+            forged = radius.build(code, good[1], good[4:20] if not reply else b'\0' * 16, [(1, b'mallory@victim.org'), (80, rbytes(rng, 16))], sec, reqauth=rqa)
+        elif kind == 1:
+            forged = radius.build(code, good[1], rbytes(rng, 16), attrs, sec2, reqauth=rqa)      # everything under another secret
+        else:
+            forged = good
+        # the other thread's packet: authentic, its own secret
+        hsec = rng.choice([sec, sec2])
+        hrq = rbytes(rng, 16) if rng.random() < 0.5 else None
+        other = radius.build(rng.choice([1, 2]) if hrq else 1, rng.randrange(256), rbytes(rng, 16), [(1, b'alice@example.com'), (80, None)], hsec, reqauth=hrq)
+        for k in (1, 2, 3, 4):
+            ops.append('op parsei %d %s %s %s %s %s %s' % (k, hx(sec), '-' if rqa is None else hx(rqa), hx(forged), hx(hsec), '-' if hrq is None else hx(hrq), hx(other)))
+    return ops
